@@ -58,6 +58,17 @@ Theorem C14_nonatomic_refuted :
   (forall l, shuffle ex_ths l -> uaf (rrun (init ex_ks) l) = false /\ frees (rrun (init ex_ks) l) = 1).
 Proof. exact nonatomic_refuted_owned. Qed.
 
+(* what deciding from the decrement's OWN return value buys: a destructor that decrements
+   atomically and then reads the counter again to decide has an interleaving in which two owners
+   both read zero and both free the node, while the programs it stands for are safe under
+   every interleaving of the modelled protocol *)
+Theorem C14_reread_after_decrement_refuted :
+  dshuffle reread_ths reread_bad /\
+  frees (drun (init [1; 1]) reread_bad) = 2 /\ uaf (drun (init [1; 1]) reread_bad) = true /\
+  map dmerge reread_ths = [[Dec]; [Dec]] /\ Forall2 thread_ok [1; 1] [[Dec]; [Dec]] /\
+  (forall l, shuffle [[Dec]; [Dec]] l -> frees (rrun (init [1; 1]) l) = 1 /\ uaf (rrun (init [1; 1]) l) = false).
+Proof. exact reread_refuted. Qed.
+
 (* non-vacuity: a concrete three-thread program has several interleavings, all safe *)
 Theorem C14_example : forall l, shuffle ex_ths l ->
   uaf (rrun (init ex_ks) l) = false /\ frees (rrun (init ex_ks) l) = 1 /\ rc (rrun (init ex_ks) l) = 0 /\ length l = 7.
@@ -67,4 +78,5 @@ Print Assumptions C14_refcount_safe_under_all_interleavings.
 Print Assumptions C14_freed_by_the_last_decrement.
 Print Assumptions C14_invariant_at_every_prefix.
 Print Assumptions C14_nonatomic_refuted.
+Print Assumptions C14_reread_after_decrement_refuted.
 Print Assumptions C14_example.
